@@ -126,8 +126,21 @@ func (h *Hub) HandleShipHandshakeStateUpdate(ski string, state model.ShipState) 
 
 // report an approved handshake by a remote device
 func (h *Hub) SetupRemoteDevice(ski string, writeI api.ShipConnectionDataWriterInterface) api.ShipConnectionDataReaderInterface {
+	// a connection that was replaced by a double connection is closed by a goroutine of its
+	// own and may complete its handshake before that: it must not be handed to the
+	// application, least of all after the connection that is kept - the application would
+	// go on writing to the one that is about to be closed and never learn about it
+	if c := h.connectionForSKI(ski); c != nil && any(c) != any(writeI) {
+		return discardReader{}
+	}
+
 	return h.hubReader.SetupRemoteDevice(ski, writeI)
 }
+
+// takes the payloads of a connection that is not handed to the application
+type discardReader struct{}
+
+func (discardReader) HandleShipPayloadMessage([]byte) {}
 
 // the number of pairing state notifications sent synchronously for a SKI
 func (h *Hub) pairingNotificationCount(ski string) uint64 {
